@@ -99,6 +99,7 @@ type c39Obs struct {
 	Hash, StateRoot, BR  string
 	Bal                  []string
 	Blocks               []string
+	Headers              []string // header-level queries up to the header tip (synced headers included)
 }
 
 func c39Observe(ls *ledgerstore.LedgerStoreImp, accts []common.Address) (c39Obs, error) {
@@ -127,6 +128,17 @@ func c39Observe(ls *ledgerstore.LedgerStoreImp, accts []common.Address) (c39Obs,
 			continue
 		}
 		o.Blocks = append(o.Blocks, fmt.Sprintf("%x", sha256.Sum256(b.ToArray())))
+	}
+	// headers by height and by hash, up to and one above the header tip: a synced header stays servable
+	for h := uint32(0); h <= o.HeaderHeight+1; h++ {
+		hh := ls.GetBlockHash(h)
+		hd, err := ls.GetHeaderByHeight(h)
+		if err != nil || hd == nil {
+			o.Headers = append(o.Headers, fmt.Sprintf("%d:%x:none", h, hh[:4]))
+			continue
+		}
+		hd2, err2 := ls.GetHeaderByHash(hd.Hash())
+		o.Headers = append(o.Headers, fmt.Sprintf("%d:%x:%x:byhash=%v", h, hh[:4], sha256.Sum256(hd.ToArray()), err2 == nil && hd2 != nil && hd2.Hash() == hd.Hash()))
 	}
 	return o, nil
 }
